@@ -41,7 +41,9 @@ NoDoc == [shape |-> "none", key |-> "", body |-> "none", path |-> ""]
 (* path: "ep" = the generated entry point function of the kind; "mt" = the generated multitest `Contract` impl, *)
 (* which for an overridden kind hands the raw document to the user's own entry point function (C06)         *)
 Overridden(q) == Range(q.overrides)
-MtKinds(q) == EpKinds(q) \cup (Overridden(q) \ {"reply"})
+(* the multitest impl has a migrate function whether or not the contract has a migrate handler: without one it  *)
+(* must refuse the document and run nothing (C04)                                                              *)
+MtKinds(q) == EpKinds(q) \cup (Overridden(q) \ {"reply"}) \cup {"migrate"}
 NoDec == [verdict |-> "none", part |-> 0, why |-> "none"]
 
 (* number of members the top-level object is written with *)
@@ -109,6 +111,15 @@ WrapperResult(q, k, d, o) ==     \* o: what each part's own decoder says about t
 
 ByOverride == doc.path = "mt" /\ ep \in Overridden(P)       \* this delivery is the user's business
 
+AbsentKind == doc.path = "mt" /\ ep \notin EpKinds(P) /\ ep \notin Overridden(P)    \* nothing serves this kind
+
+(* ---- a kind the contract has no handler for, reached through the multitest impl: refused ---- *)
+AbsentReject ==
+    /\ stage = "delivered" /\ AbsentKind
+    /\ dec' = [verdict |-> "err", part |-> 0, why |-> "absent"]
+    /\ stage' = "decoded"
+    /\ UNCHANGED <<prog, pv, ep, doc, ran, res, origin>>
+
 WrapperDecode(o) ==
     /\ stage = "delivered" /\ ep \in EnumKinds /\ ~ByOverride
     /\ pv' = o
@@ -124,7 +135,7 @@ StructVerdictOk(v) ==
     /\ (doc.shape = "flat" /\ doc.key = ep /\ doc.body = "exact") => v = "ok"
     /\ doc.shape = "nonobj" => v = "err"
 StructDecode(v) ==
-    /\ stage = "delivered" /\ ep \in {"instantiate", "migrate"} /\ ~ByOverride
+    /\ stage = "delivered" /\ ep \in {"instantiate", "migrate"} /\ ~ByOverride /\ ~AbsentKind
     /\ dec' = [verdict |-> v, part |-> IF v = "ok" THEN Len(P.parts) ELSE 0, why |-> "none"]
     /\ stage' = "decoded"
     /\ UNCHANGED <<prog, pv, ep, doc, ran, res, origin>>
